@@ -24,6 +24,14 @@ def feed(filler, plan, delay):
     return [os.getpid(), n, plan[0][1][0] if plan and plan[0][1] else -1]
 
 
+def feed_boom(filler, plan, delay):
+    """like `feed`, but the writer's own code fails after its examples were written (the first writer only)"""
+    r = feed(filler, plan, delay)
+    if plan and plan[0][1] and plan[0][1][0] == 800000:
+        raise RuntimeError("feed_writer failed")
+    return r
+
+
 def main():
     a = json.loads(open(sys.argv[1]).read())
     sp.sedpack()
@@ -47,6 +55,16 @@ def main():
             other = sp.mk(Path(str(root) + "_other"), fmt=a["fmt"], eps=a["eps"])
             other.write_multiprocessing(feed_writer=feed, custom_arguments=[([[0, [900000, 900001]]], 0), ([[1, [900002]]], 0)],
                                         single_process=a["single"], consistency_check=False)
+        if a.get("fail_first"):
+            # an earlier call on this dataset failed (a writer raised after it had closed a shard) and the caller caught the error:
+            # nothing of it was merged; what it left on disk are orphans the dataset does not list
+            try:
+                ds.write_multiprocessing(feed_writer=feed_boom, custom_arguments=[([[0, list(range(800000, 800000 + a["eps"] + 1))]], 0), ([[1, [800100]]], 0)],
+                                         single_process=a["single"], consistency_check=False)
+                res["fail_first"] = "no error"
+            except Exception as e:  # noqa: BLE001
+                res["fail_first"] = type(e).__name__
+            res["orphans"] = sorted(str(q.relative_to(root)) for q in root.rglob("*") if q.is_file() and q.suffix in (".fb", ".npz", ".tfrec"))
         out = ds.write_multiprocessing(feed_writer=feed, custom_arguments=[(p, d) for p, d in zip(a["plans"], a["delays"])],
                                        single_process=a["single"], consistency_check=False)
         res["returns"] = out
